@@ -1143,6 +1143,12 @@ def _hoist_test_calls(fn: ast.AST, helpers, cls, counter: List[int]) -> int:
     return n
 
 
+# helpers that are called more than once in the function being rewritten: every instance gets
+# fresh names (one instance keeping the helper's names and the other not would break the
+# alignment with the reference names)
+_MULTI: Set[int] = set()
+
+
 def _comp_only_names(body: List[ast.stmt]) -> Set[str]:
     """names that are bound by comprehensions only (scoped to the comprehension)"""
     comp: Set[int] = set()
@@ -1179,8 +1185,9 @@ def _instantiate(h: "_Helper", env: Dict[str, ast.AST], caller_names: Set[str],
             env[p_] = ast.Name(id=p_ + suffix, ctx=ast.Load())
     force = force or {}
     comp_only = {c_ for c_ in _comp_only_names(body) if c_ not in env}
+    multi = id(h.node) in _MULTI
     ren = {nm: (force[nm] if nm in force else
-                (nm + suffix if nm in caller_names or nm in env else nm))
+                (nm + suffix if nm in caller_names or nm in env or multi else nm))
            for nm in stored if nm not in comp_only}
     caller_names |= set(ren.values())
 
@@ -1392,6 +1399,14 @@ def _inline_proc_calls(fn: ast.AST, helpers, cls, counter: List[int]) -> int:
     for v_ in (a_.vararg, a_.kwarg):
         if v_ is not None:
             caller_names.add(v_.arg)
+    _MULTI.clear()
+    seen_h: Dict[int, int] = {}
+    for x in _walk_scope(fn):
+        if isinstance(x, ast.Call):
+            h_, _r = _helper_of_call(x, helpers, cls)
+            if h_ is not None:
+                seen_h[id(h_.node)] = seen_h.get(id(h_.node), 0) + 1
+    _MULTI.update(k for k, v in seen_h.items() if v > 1)
     n += _inline_generators(fn, helpers, cls, counter, caller_names)
     for block in list(_blocks(fn)):
         i = 0
@@ -1552,8 +1567,9 @@ def _inline_proc_calls(fn: ast.AST, helpers, cls, counter: List[int]) -> int:
                                           value=copy.deepcopy(env[p])))
                     env[p] = ast.Name(id=p + suffix, ctx=ast.Load())
             comp_only = {c_ for c_ in _comp_only_names(body) if c_ not in env}
+            multi = id(h.node) in _MULTI
             ren = {nm: (same[nm] if nm in same else
-                        (nm + suffix if nm in caller_names or nm in env else nm))
+                        (nm + suffix if nm in caller_names or nm in env or multi else nm))
                    for nm in stored if nm not in comp_only or nm in same}
             caller_names |= set(ren.values())
             for p in same:
